@@ -70,7 +70,7 @@ var specs = map[string]*propSpec{
 			{Path: "./pkg/mongodb", Touch: true, TouchLocalMaps: true},
 			{Path: "./pkg/httpclient", Touch: true, CallReplace: map[string]string{"net/http.Client.Do": "SimClientDo"}},
 		},
-		QuickSecs: 50, ThoroughSecs: 600, Chunk: 12, // small chunks: every worker process start is a cold start (lazily built package-level state is built under contention only then)
+		QuickSecs: 50, ThoroughSecs: 600, Chunk: 25, // small chunks: every worker process start is a cold start (lazily built package-level state is built under contention only then)
 		Rule: "each run is one of: (S-pure) 2-8 request tasks, 1-4 requests each, on one long-lived server built by the real pipeline from a corpus of routes without providers (deep recursion, generic functions instantiated at different types, loops, strings, async blocks, query parameters, typed input, auth+ratelimit), compiled or interpreter mode, each response compared with the response the same request gets alone on a fresh server; (S-prov) the same with single-operation provider routes (mock database, Redis, MongoDB) plus atomicity invariants; (P) 2-4 tasks calling the mock providers' Go API directly, history checked for linearizability against a fresh mock replaying the candidate order; preemption at evaluation steps (EvaluateExpression, ExecuteStatement, VM.step), locks, atomics and race probes (including values handed to JSON encoders) (the corpus includes a typed route whose object/list literal defaults are mutated in place, and database routes over a list-valued column with a filter the store cannot evaluate, whose panic is contained as net/http contains it); a run is non-trivial if at least two tasks were runnable at once and a preemption happened; distinct = distinct fingerprints (schedule hash combined with workload tape) among those",
 		Components: []component{
 			{"parser, compiler, setupRoutes, registerRoute/registerCompiledRoute, createHandler (cmd/glyph)", "real-woven", "L0 + race probes"},
